@@ -7,6 +7,7 @@ import (
 	"go/token"
 	"go/types"
 	"math/rand"
+	"regexp"
 	"sort"
 	"strings"
 
@@ -339,6 +340,9 @@ var c10KernelPatterns = []string{
 	"func($*_, $t, $*_) $t", "func($*_, $t, $*_) ($*_, $t)", "func($*_, [$n]int, $*_) [$n]string", "struct{func($*_, $t, $*_); $t}",
 	"map[struct{$*_; $t; $*_}]$t", "struct{$*_; $t; $*_; func($t)}", "func($*_, [$n]$t, $*_) [$n]$t", "func($*_, $_) $*_", "func($_, $*_, $_)",
 	"func($_, $*_, $t, $*_) $t", "struct{$_; $*_; $t; $*_; func($t)}", "map[$k]func($_, $*_, $k, $*_)",
+	// a repeated variable under further constructors, next to array patterns that spell or bind the length
+	"[]func($t) $t", "*struct{$t; $t}", "func($_, $t, $_, $t)", "map[*$t]*$t", "func([0]$t, [8]$t)", "func([$n]$t, [$n]$t)", "map[[$n]$t][$m]$t",
+	"[0]$x", "[0][$n]$x", "[$n][0]$x", "*[0]$x", "[][0]$x", "func($t, $*_) $t", "struct{$t; $*_; $t}",
 }
 
 // strings for the parse-only stream: valid and invalid spellings
@@ -437,7 +441,9 @@ func runC10(c *Ctx) error {
 		"every pattern derived from a base type expression (closed, with variables, with $*_ runs) against the base, its identical copies and its near " +
 		"misses, and every kernel pattern against every probe type, through Pattern.MatchIdentical (model op tmmatchmat); the executable spec " +
 		"(specmat10: complete backtracking, Go-spec identity) is evaluated on the implementation's answers; closed patterns are validated against " +
-		"go/types.Identical; Type.Is filter outcomes through Engine.Run. Non-trivial: pattern and type have the same top-level constructor; distinct by (group, pattern, type)"
+		"go/types.Identical; Type.Is filter outcomes through Engine.Run. Type universe: arrays of length 0, 1, 2, 3, 8 (arrays of arrays, pointers and slices of them), " +
+		"twin declarations holding a type and a copy / respelling / near miss of it at the two positions a repeated variable compares; synthetic named types whose package " +
+		"path is syn/c, a vendored copy of it, or a look-alike (segments that merely contain, start or end with `vendor`, 1-3 deep, `vendor` as the last element). Non-trivial: pattern and type have the same top-level constructor; distinct by (group, pattern, type)"
 	itab := c10ItabSExp()
 	ctx := &typematch.Context{Itab: c10NewItab()}
 	for gi := 0; gi < groups; gi++ {
@@ -499,15 +505,17 @@ func runC10(c *Ctx) error {
 			byName[p.Name] = len(tys)
 			tys = append(tys, typ{p.Name, p.Type, g.sx[0][i]})
 		}
-		for _, path := range []string{"x/vendor/syn/c", "x/vendor/y/vendor/syn/c", "vendor/syn/c", "syn/c", "syn/cvendor/", "x/vendor/syn/c/vendor/syn/d"} {
+		nSyn := 0
+		for _, path := range c10PkgPaths(rng) {
 			pk := types.NewPackage(path, "c")
 			enc.Universe(1, nil, pk)
 			obj := types.NewTypeName(0, pk, "T", nil)
 			pk.Scope().Insert(obj)
 			nt := types.NewNamed(obj, types.Typ[types.Int], nil)
 			tys = append(tys, typ{"syn:" + path + ".T", nt, enc.MustEnc(nt)})
+			res.Dist("match:pkg-path:" + c10PathClass(path))
+			nSyn++
 		}
-		nSyn := 6
 		// synthetic types on which only one split of a `$*_` (not the first that fits locally) leads to a match
 		{
 			v := func(t types.Type) *types.Var { return types.NewVar(0, nil, "", t) }
@@ -676,8 +684,17 @@ func runC10(c *Ctx) error {
 				if strings.HasPrefix(v.impl, "panic") {
 					dir = "panics"
 				}
-				res.Dist("match:violation:" + labels[k])
-				res.Violate(hx.Violation{Signature: "MatchIdentical:" + dir + ":" + labels[k],
+				label := labels[k]
+				if label == "other" {
+					// no single clause of the reading explains it: name the input class
+					if vn, _ := v.in["var"].(string); strings.HasPrefix(vn, "syn:") && !strings.HasPrefix(vn, "syn:bt") {
+						label += ":pkg-path:" + c10PathClass(strings.TrimSuffix(strings.TrimPrefix(vn, "syn:"), ".T"))
+					} else if c10RepeatedVar(v.in["pattern"].(string)) {
+						label += ":repeated-variable"
+					}
+				}
+				res.Dist("match:violation:" + label)
+				res.Violate(hx.Violation{Signature: "MatchIdentical:" + dir + ":" + label,
 					What:  "Pattern.MatchIdentical differs from the denotation of the pattern",
 					Input: v.in, Impl: v.impl, Spec: fmt.Sprintf("spec10 %s %s %s", v.pat, v.ty, v.impl)})
 			}
@@ -690,6 +707,71 @@ func runC10(c *Ctx) error {
 	}
 	return nil
 }
+
+// --- package paths of the synthetic named types -----------------------------------------------------
+
+// c10VendorSegs: directory names that are, contain, start or end with "vendor"; only the segment that is
+// exactly `vendor` makes what follows a vendored copy.
+var c10VendorSegs = []string{"vendor", "vendors", "xvendor", "govendor", "myvendor", "vendorx", "vendor.d", "my-vendor", "_vendor", "Vendor", "x"}
+
+// c10PkgPaths: the package `syn/c` (what the name `syn` is bound to), genuine vendored copies of it (top-level,
+// nested, doubly nested), and look-alikes: 1–3 leading segments drawn from c10VendorSegs, "vendor" glued to the
+// first or last element, "vendor" as the last element, a vendored copy of another package below syn/c.
+func c10PkgPaths(r *rand.Rand) []string {
+	paths := []string{"syn/c", "vendor/syn/c", "x/vendor/syn/c", "x/vendor/y/vendor/syn/c", "x/vendor/syn/c/vendor/syn/d",
+		"syn/cvendor/", "syn/cvendor", "syn/c/vendor", "vendor", "vendorsyn/c", "x/vendorsyn/c", "syn/vendor/c", "vendor/vendor/syn/c", "syn/c/vendor/"}
+	for _, s := range c10VendorSegs {
+		paths = append(paths, s+"/syn/c", "x/"+s+"/syn/c")
+	}
+	for i := 0; i < 12; i++ {
+		n := 2 + r.Intn(2)
+		var segs []string
+		for k := 0; k < n; k++ {
+			segs = append(segs, c10VendorSegs[r.Intn(len(c10VendorSegs))])
+		}
+		paths = append(paths, strings.Join(segs, "/")+"/syn/c")
+	}
+	seen := map[string]bool{}
+	var out []string
+	for _, p := range paths {
+		if !seen[p] {
+			seen[p] = true
+			out = append(out, p)
+		}
+	}
+	return out
+}
+
+// c10PathClass names the input class of a synthetic package path (for the distribution record and signatures).
+func c10PathClass(p string) string {
+	switch {
+	case !strings.Contains(p, "vendor") && !strings.Contains(p, "Vendor"):
+		return "plain"
+	case strings.HasPrefix(p, "vendor/") || strings.Contains(p, "/vendor/"):
+		if strings.Count("/"+p, "vendor") > strings.Count("/"+p, "/vendor/") {
+			return "vendored+lookalike"
+		}
+		return "vendored"
+	}
+	return "vendor-lookalike"
+}
+
+// c10RepeatedVar: some `$name` (not `$_`, not a sequence) occurs at least twice in the pattern.
+func c10RepeatedVar(src string) bool {
+	seen := map[string]bool{}
+	for _, m := range c10VarRe.FindAllString(src, -1) {
+		if m == "$_" || strings.HasPrefix(m, "$*") {
+			continue
+		}
+		if seen[m] {
+			return true
+		}
+		seen[m] = true
+	}
+	return false
+}
+
+var c10VarRe = regexp.MustCompile(`\$\*?[A-Za-z_][A-Za-z_0-9]*`)
 
 // --- end to end: Type.Is filters ---------------------------------------------------------------------
 
